@@ -199,10 +199,14 @@ func (fw *FileWrapV2) WriteSlice(slotIdx int, endSlotIdx int, offset int64, dat 
 		return errors.Wrapf(err, "seek unreachable file:%s", fw.Name())
 	}
 	var buff = make([]byte, 0, unit32Size)
-	buff = encoding.MarshalUint32(buff, uint32(len(dat))) // size
-	_, err = fw.fd.Write(buff)
-	if err != nil {
-		return errors.Wrapf(err, "write failed for file:%s", fw.Name())
+	if !clearSlots {
+		// clearSlots: dat is a run of zeros that wipes whole slots. It carries no size prefix: the prefix would be
+		// left in the first wiped slot and would push the run unit32Size bytes past the end of the slot table.
+		buff = encoding.MarshalUint32(buff, uint32(len(dat))) // size
+		_, err = fw.fd.Write(buff)
+		if err != nil {
+			return errors.Wrapf(err, "write failed for file:%s", fw.Name())
+		}
 	}
 
 	_, err = fw.fd.Write(dat) // data
@@ -220,7 +224,7 @@ func (fw *FileWrapV2) WriteSlice(slotIdx int, endSlotIdx int, offset int64, dat 
 		}
 	}
 
-	if !isMeta && len(fw.cache) <= slotIdx {
+	if !isMeta && !clearSlots && len(fw.cache) <= slotIdx {
 		if len(fw.cache) <= slotIdx {
 			fw.cache = append(fw.cache, make([]fileSlotCache, slotIdx-len(fw.cache)+1)...)
 		}
